@@ -382,6 +382,13 @@ func c13Run(v *spec.V, mods []c13Mod) (msg, sig string, applied bool, final stri
 			return "", "", false, ""
 		}
 		after := c13Snapshot(&s)
+		// a brand-new container built from the same specification must still export exactly its content:
+		// catches export storage shared between containers (package-level caches), reproducibly
+		if m.Target != 0 {
+			if fresh := renderNative(deepOf(v.Build())); fresh != renderNative(v.Native()) {
+				return fmt.Sprintf("tree %s: after modifying the %s (%v) of one container, the Native export of a NEW container built from the same content is %s", v, c13Targets[m.Target], m, fresh), "alias/export-storage-shared-between-containers", true, ""
+			}
+		}
 		type pair struct {
 			name   string
 			b, a   string
